@@ -13,7 +13,7 @@ from ..model import qual, get_kw
 from ..symx import Expander, CmpV, TupleV
 from ..anf import R, Unsupported
 from .. import anf
-from .common import struct_ob, formula_ob, guard, last_return
+from .common import struct_ob, formula_ob, guard, last_return, U
 from . import mcmc
 from ..report import AnalysisError
 
@@ -26,7 +26,7 @@ OPAQUE = {"inv_temp", "n_parameters", "n_walkers", "posterior", "rng", "mass", "
 
 
 def uses_draw(node):
-    return any(isinstance(n, ast.Call) and ast.unparse(n.func) == "self.rng.random" for n in ast.walk(node))
+    return any(isinstance(n, ast.Call) and U(n.func) == "self.rng.random" for n in ast.walk(node))
 
 
 def find_accept(fn):
@@ -102,8 +102,8 @@ def run(prog, tier):
         ok_or = op in ("Lt", "LtE") and body_breaks
         obs.append(struct_ob("accept-orientation", construct, ok_or,
                              f"the move must be accepted when uniform < A (accept edge = break out of the retry loop); "
-                             f"test is `{ast.unparse(if_stmt.test)}` (normalised operator {op}, break in body: {body_breaks})",
-                             rel, if_stmt.lineno, slots={"test": ast.unparse(if_stmt.test)}))
+                             f"test is `{U(if_stmt.test)}` (normalised operator {op}, break in body: {body_breaks})",
+                             rel, if_stmt.lineno, slots={"test": U(if_stmt.test)}))
 
         # ---- NEW, OLD
         loop = enclosing_loop_body(fn, if_stmt)
@@ -135,7 +135,7 @@ def run(prog, tier):
             r0 = r = None
             for st in ast.walk(fn):
                 if isinstance(st, ast.Assign) and isinstance(st.value, ast.Call):
-                    f = ast.unparse(st.value.func)
+                    f = U(st.value.func)
                     if f == "self.mass.sample_momentum" and isinstance(st.targets[0], ast.Name):
                         r0 = env.get(st.targets[0].id)
                     if f == "self.run_leapfrog" and isinstance(st.targets[0], ast.Tuple):
@@ -153,7 +153,7 @@ def run(prog, tier):
             z = None
             for st in ast.walk(fn):
                 if isinstance(st, ast.Assign) and isinstance(st.value, ast.Call) \
-                        and ast.unparse(st.value.func).endswith("__proposal") and isinstance(st.targets[0], ast.Tuple):
+                        and U(st.value.func).endswith("__proposal") and isinstance(st.targets[0], ast.Tuple):
                     z = env.get(st.targets[0].elts[1].id)
             if z is None:
                 raise AnalysisError(f"anchor vanished: stretch factor in {construct}")
@@ -177,7 +177,7 @@ def run(prog, tier):
                     shortcut = ("outer", st.test)
         if shortcut is not None:
             t = shortcut[1]
-            ok_s, why = False, f"shortcut `{ast.unparse(t)}`"
+            ok_s, why = False, f"shortcut `{U(t)}`"
             if isinstance(t, ast.Compare) and len(t.ops) == 1 and isinstance(t.ops[0], (ast.Gt, ast.GtE)):
                 l = guard(lambda: ex.eval(t.left, env))
                 r_ = guard(lambda: ex.eval(t.comparators[0], env))
@@ -215,7 +215,7 @@ def run(prog, tier):
             if mname == "hamiltonian":
                 want = -want
             obs.append(formula_ob("temper", qual(c, fn), coeff, want, c.module.relpath, call.lineno,
-                                  what=f"coefficient of posterior(...) in `{ast.unparse(holder)}` (exactly one temperature factor)"))
+                                  what=f"coefficient of posterior(...) in `{U(holder)}` (exactly one temperature factor)"))
 
     # ---------------------------------------------------------------- proposals
     obs.extend(_proposals(prog))
@@ -262,15 +262,15 @@ def _old_binding(c, fn, new_name, if_stmt):
     defs = [st for st in ast.walk(fn) if isinstance(st, ast.Assign) and any(isinstance(t, ast.Name) and t.id == old_name for t in st.targets)]
     defs.sort(key=lambda s: s.lineno)
     problems = []
-    if not defs or ast.unparse(defs[0].value) != "self.probs[-1]":
+    if not defs or U(defs[0].value) != "self.probs[-1]":
         problems.append(f"`{old_name}` is not initialised from self.probs[-1]")
     retry = [w for w in ast.walk(fn) if isinstance(w, ast.While) and any(x is if_stmt for x in ast.walk(w))]
     for d in defs[1:]:
         v = mcmc.unwrap(d.value)
         if not (isinstance(v, ast.Name) and v.id == new_name):
-            problems.append(f"`{ast.unparse(d)}` refreshes OLD from something other than NEW")
+            problems.append(f"`{U(d)}` refreshes OLD from something other than NEW")
         if retry and not (d.lineno > retry[0].end_lineno):
-            problems.append(f"`{ast.unparse(d)}` refreshes OLD inside the retry loop")
+            problems.append(f"`{U(d)}` refreshes OLD inside the retry loop")
     if len(defs) < 2:
         problems.append(f"`{old_name}` is never refreshed after a coordinate is accepted")
     else:
@@ -279,7 +279,7 @@ def _old_binding(c, fn, new_name, if_stmt):
         if outer and not any(x is defs[1] for x in ast.walk(outer[0])):
             problems.append("OLD is refreshed outside the per-coordinate loop")
     return struct_ob("new-old-binding", qual(c, fn), not problems, "; ".join(problems), rel, fn.lineno,
-                     slots={"old": old_name, "new": new_name, "defs": [ast.unparse(d) for d in defs]})
+                     slots={"old": old_name, "new": new_name, "defs": [U(d) for d in defs]})
 
 
 def _proposals(prog):
@@ -290,29 +290,29 @@ def _proposals(prog):
         fn = pc.methods.get(mname)
         if fn is None:
             raise AnalysisError(f"anchor vanished: Parameter.{mname}")
-        draws = [n for n in ast.walk(fn) if isinstance(n, ast.Call) and ast.unparse(n.func) == "self.rng.normal"]
+        draws = [n for n in ast.walk(fn) if isinstance(n, ast.Call) and U(n.func) == "self.rng.normal"]
         problems = []
         if len(draws) != 1:
             problems.append(f"{len(draws)} normal draws")
         else:
             d = draws[0]
             loc, scale = get_kw(d, "loc", 0), get_kw(d, "scale", 1)
-            if loc is None or ast.unparse(loc) != "self.samples[-1]":
-                problems.append(f"draw is centred on `{ast.unparse(loc) if loc else None}`, not on the current state self.samples[-1]")
-            if scale is None or ast.unparse(scale) != "self.sigma":
-                problems.append(f"draw has scale `{ast.unparse(scale) if scale else None}`, not self.sigma")
+            if loc is None or U(loc) != "self.samples[-1]":
+                problems.append(f"draw is centred on `{U(loc) if loc else None}`, not on the current state self.samples[-1]")
+            if scale is None or U(scale) != "self.sigma":
+                problems.append(f"draw has scale `{U(scale) if scale else None}`, not self.sigma")
             rets = [r for r in ast.walk(fn) if isinstance(r, ast.Return)]
             if g == "id":
                 if not (len(rets) == 1 and rets[0].value is d):
                     problems.append("must return the draw unchanged")
             elif g == "abs":
-                ok = len(rets) == 1 and isinstance(rets[0].value, ast.Call) and ast.unparse(rets[0].value.func) == "abs" \
+                ok = len(rets) == 1 and isinstance(rets[0].value, ast.Call) and U(rets[0].value.func) == "abs" \
                     and rets[0].value.args[0] is d
                 if not ok:
                     problems.append("must return abs(draw)")
             else:
                 # every returned expression depends on the draw only through (draw - lower); form checked in C04.fold-form
-                names = {ast.unparse(s.targets[0]) for s in fn.body if isinstance(s, ast.Assign) and s.value is d}
+                names = {U(s.targets[0]) for s in fn.body if isinstance(s, ast.Assign) and s.value is d}
                 if len(names) != 1:
                     problems.append("draw is not bound to a single local")
         out.append(struct_ob("proposal-symmetric", qual(pc, fn), not problems, "; ".join(problems), rel, fn.lineno,
@@ -320,10 +320,10 @@ def _proposals(prog):
     # PCA move: prop - theta0 is homogeneous of degree 1 in one zero-mean draw
     ci = prog.cls("PcaChain")
     c, fn = prog.method("PcaChain", "take_step")
-    draws = [n for n in ast.walk(fn) if isinstance(n, ast.Call) and ast.unparse(n.func) == "self.rng.normal"]
+    draws = [n for n in ast.walk(fn) if isinstance(n, ast.Call) and U(n.func) == "self.rng.normal"]
     problems = []
     if len(draws) != 1 or draws[0].args or draws[0].keywords:
-        problems.append(f"expected one standard-normal draw rng.normal(); found {[ast.unparse(d) for d in draws]}")
+        problems.append(f"expected one standard-normal draw rng.normal(); found {[U(d) for d in draws]}")
     else:
         st = [s for s in ast.walk(fn) if isinstance(s, ast.Assign) and any(x is draws[0] for x in ast.walk(s))][0]
         ex = expander(prog, ci)
@@ -361,11 +361,11 @@ def _stretch(prog):
     ret = last_return(fn)
     guard(lambda: ex.run_until(fn.body, env, ret))
     # Y before the reflection hook
-    pp = [n for n in ast.walk(fn) if isinstance(n, ast.Call) and ast.unparse(n.func) == "self.process_proposal"]
+    pp = [n for n in ast.walk(fn) if isinstance(n, ast.Call) and U(n.func) == "self.process_proposal"]
     if len(pp) != 1:
         raise AnalysisError("anchor vanished: process_proposal call in EnsembleSampler.__proposal")
     jdef = mcmc.last_def(fn, "j", 10 ** 9)
-    zname = ast.unparse(ret.value.elts[1]) if isinstance(ret.value, ast.Tuple) and len(ret.value.elts) == 2 else None
+    zname = U(ret.value.elts[1]) if isinstance(ret.value, ast.Tuple) and len(ret.value.elts) == 2 else None
     if zname is None or zname not in env:
         raise AnalysisError("anchor vanished: (proposal, z) return of EnsembleSampler.__proposal")
     z = env[zname]
@@ -389,15 +389,15 @@ def _stretch(prog):
     okj, why = False, ""
     if jdef is not None:
         v = jdef.value
-        if isinstance(v, ast.BinOp) and isinstance(v.op, ast.Mod) and ast.unparse(v.right) == "self.n_walkers" \
+        if isinstance(v, ast.BinOp) and isinstance(v.op, ast.Mod) and U(v.right) == "self.n_walkers" \
                 and isinstance(v.left, ast.BinOp) and isinstance(v.left.op, ast.Add):
             parts = [v.left.left, v.left.right]
-            draw = [p for p in parts if isinstance(p, ast.Call) and ast.unparse(p.func) == "self.rng.integers"]
+            draw = [p for p in parts if isinstance(p, ast.Call) and U(p.func) == "self.rng.integers"]
             other = [p for p in parts if not (isinstance(p, ast.Call))]
-            if len(draw) == 1 and len(other) == 1 and ast.unparse(other[0]) == i:
+            if len(draw) == 1 and len(other) == 1 and U(other[0]) == i:
                 lo, hi = get_kw(draw[0], "low", 0), get_kw(draw[0], "high", 1)
-                okj = lo is not None and hi is not None and ast.unparse(lo) == "1" and ast.unparse(hi) == "self.n_walkers"
-        why = ast.unparse(jdef)
+                okj = lo is not None and hi is not None and U(lo) == "1" and U(hi) == "self.n_walkers"
+        why = U(jdef)
     out.append(struct_ob("stretch", qual(c, fn) + "[partner]", okj,
                          f"partner must be (integers(1, n_walkers) + i) % n_walkers, which excludes i itself: `{why}`",
                          rel, jdef.lineno if jdef is not None else fn.lineno))
@@ -427,7 +427,7 @@ def _stretch(prog):
 def _hmc_fresh(prog):
     c, fn = prog.method("HamiltonianChain", "take_step")
     rel = c.module.relpath
-    loops = [l for l in fn.body if isinstance(l, ast.For) and "max_attempts" in ast.unparse(l.iter)]
+    loops = [l for l in fn.body if isinstance(l, ast.For) and "max_attempts" in U(l.iter)]
     problems = []
     if len(loops) != 1:
         problems.append("attempt loop not found")
@@ -436,18 +436,18 @@ def _hmc_fresh(prog):
         src = {}
         for st in lp.body:
             if isinstance(st, ast.Assign):
-                src[ast.unparse(st.targets[0])] = st.value
-        mom = [k for k, v in src.items() if isinstance(v, ast.Call) and ast.unparse(v.func) == "self.mass.sample_momentum"]
+                src[U(st.targets[0])] = st.value
+        mom = [k for k, v in src.items() if isinstance(v, ast.Call) and U(v.func) == "self.mass.sample_momentum"]
         if len(mom) != 1:
             problems.append("momentum is not drawn inside the attempt loop")
-        t0 = [k for k, v in src.items() if ast.unparse(v) == "self.theta[-1]"]
+        t0 = [k for k, v in src.items() if U(v) == "self.theta[-1]"]
         if len(t0) != 1:
             problems.append("start of the trajectory is not self.theta[-1]")
-        lf = [v for v in src.values() if isinstance(v, ast.Call) and ast.unparse(v.func) == "self.run_leapfrog"]
+        lf = [v for v in src.values() if isinstance(v, ast.Call) and U(v.func) == "self.run_leapfrog"]
         if len(lf) != 1:
             problems.append("no single run_leapfrog call in the attempt loop")
         elif mom and t0:
-            a = [ast.unparse(x) for x in lf[0].args[:2]]
+            a = [U(x) for x in lf[0].args[:2]]
             if a != [f"{t0[0]}.copy()", f"{mom[0]}.copy()"]:
                 problems.append(f"leapfrog must receive copies of the current point and the fresh momentum; receives {a}")
     return struct_ob("hmc-fresh-momentum", qual(c, fn), not problems, "; ".join(problems), rel, fn.lineno)
